@@ -13,11 +13,11 @@ type Action int
 
 // Actions.
 const (
-	Pass     Action = iota // forward (the hook may have mutated the object)
-	Drop                   // do not forward; cut the stream
-	Truncate               // forward only part of the encoding, then cut
-	CutAfter               // forward, then cut the stream
-	Impersonate            // (renter->host message) do not forward: answer the renter in the host's place with the relay's Answer function, then end the exchange
+	Pass        Action = iota // forward (the hook may have mutated the object)
+	Drop                      // do not forward; cut the stream
+	Truncate                  // forward only part of the encoding, then cut
+	CutAfter                  // forward, then cut the stream
+	Impersonate               // (renter->host message) do not forward: answer the renter in the host's place with the relay's Answer function, for this and every later renter message of the exchange
 )
 
 // An Answerer fabricates the host's next message after a renter message the
@@ -201,10 +201,24 @@ func TypedRelayAnswering(hook Hook, answer Answerer) Interposer {
 			}
 			if act == Impersonate {
 				if answer != nil && st.FromRenter {
-					if a := answer(streamNo, id, i, o); a != nil {
+					// the relay is the host from here on: it answers this message
+					// and every later renter message of the exchange
+					host.Cut()
+					cur := o
+					for idx := i; ; {
+						a := answer(streamNo, id, idx, cur)
+						if a == nil {
+							break
+						}
 						rhp4.WriteResponse(renter, a)
-						host.Cut()
-						return
+						idx += 2
+						if idx >= len(flow) || !flow[idx].FromRenter {
+							return
+						}
+						cur = flow[idx].New()
+						if rhp4.ReadResponse(renter, cur) != nil {
+							return
+						}
 					}
 				}
 				cut()
